@@ -775,8 +775,11 @@ class Interp(object):
         E = engine()
         L = frame.locals
         tag = 'loop in %s' % frame.fname
-        if s.orelse or any(isinstance(n, (ast.Break, ast.Continue, ast.Return)) for b in s.body for n in ast.walk(b)):
-            raise Unsupported('loop contract on a loop with break/continue/return/else')
+        if s.orelse or any(isinstance(n, (ast.Break, ast.Return)) for b in s.body for n in ast.walk(b)):
+            raise Unsupported('loop contract on a loop with break/return/else')
+        if any(isinstance(n, (ast.For, ast.While)) and any(isinstance(c, ast.Continue) for c in ast.walk(n))
+               for b in s.body for n in ast.walk(b)):
+            raise Unsupported('loop contract on a loop with a nested loop that uses continue')
         if not isinstance(s.target, ast.Name):
             raise Unsupported('loop contract: loop target is not a simple name')
         args = [self.eval(a, frame) for a in s.iter.args]
@@ -807,7 +810,11 @@ class Interp(object):
             E.assume(lc['invariant'](L, i))
             L[var] = a + step * i
             before = dict(L)
-            self.exec_block(s.body, frame)
+            try:
+                self.exec_block(s.body, frame)
+            except _Continue:
+                # `continue` of this loop: the iteration ends here
+                pass
             E.prove_aux(lc['invariant'](L, i + 1), tag + ': invariant preserved by an arbitrary iteration')
             if lc.get('iteration') is not None:
                 lc['iteration'](before, L, i)
@@ -822,7 +829,7 @@ class Interp(object):
 
     def x_For(self, s, frame):
         if (frame.fname in self.loop_contracts and engine().mode == 'symbolic' and isinstance(s.iter, ast.Call)
-                and isinstance(s.iter.func, ast.Name) and s.iter.func.id == 'range' and not s.iter.keywords):
+                and isinstance(s.iter.func, ast.Name) and s.iter.func.id in ('range', 'xrange') and not s.iter.keywords):
             return self._for_range_contract(s, frame, self.loop_contracts[frame.fname])
         it = self.eval(s.iter, frame)
         for item in self.iterate(it):
